@@ -64,7 +64,7 @@ def seq_spec(prop, sweep, quick, thorough, rule, after_op=None, tier_kw=None, pr
             rule,
             "sequential-history",
             components_stub=STUBS,
-            fault_kinds=["op_reopen", "op_clear", "recovered_crash_states", "abandoned_requests", "requests_retried_after_recovery", "input_stream_faults", "query_requests_abandoned", "rule_installations_abandoned", "clear_with_unfinished_request", "clear_requests_failing_half_way"],
+            fault_kinds=["op_reopen", "op_clear", "recovered_crash_states", "recovered_disk_full_states", "abandoned_requests", "requests_retried_after_recovery", "input_stream_faults", "query_requests_abandoned", "rule_installations_abandoned", "clear_with_unfinished_request", "clear_requests_failing_half_way"],
             assumptions=ASSUME,
             **kw
         )
@@ -197,7 +197,7 @@ register(
         "per sampled write history: EVERY cut of its program-ordered write log is reconstructed (block granularity for all events; byte granularity for appends: first byte, last-but-one byte, seeded interior offsets) and reopened by the real constructor, then swept with every read-only traversal; a seeded sample of cuts is also executed as in-line crashes (exception out of SimFile.write) and must leave the same bytes; non-trivial when the log has >= 20 events and >= 10 crash states were accepted and swept; distinct = distinct write-log digests",
         "crash-cut enumeration",
         components_stub=STUBS,
-        fault_kinds=["crash_states", "cuts_block", "cuts_byte", "inline_crashes", "reopen_refused", "reopen_accepted"],
+        fault_kinds=["crash_states", "cuts_block", "cuts_byte", "inline_crashes", "disk_full_states", "reopen_refused", "reopen_accepted"],
         assumptions=["disk model as stated by the property: program-ordered prefix, appends torn at byte granularity, in-place block rewrites atomic, both files cut at the same program point", "rules re-supplied at reopen = union of the rules before and after the interrupted request"],
     )
 )
